@@ -43,7 +43,7 @@ fn report_case() -> impl Strategy<Value = ReportCase> {
     (
         prop_oneof![Just(2u8), Just(3u8), Just(7u8), Just(8u8), Just(11u8), Just(4u8)],
         (prop_oneof![9 => Just(false), 1 => Just(true)], mag()),
-        (0u8..12, -3i64..=3, 0u64..=1_000_000_000),
+        (0u8..14, -3i64..=3, 0u64..=1_000_000_000),
         (any::<u32>(), prop_oneof![3 => 0u64..=5_000_000_000, 1 => any::<u64>()], any::<bool>()),
         prop_oneof![6 => 0u32..=5, 1 => any::<u32>()],
         prop_oneof![9 => Just(false), 1 => Just(true)],
@@ -66,6 +66,9 @@ fn report_case() -> impl Strategy<Value = ReportCase> {
                 4 => (&p + BigInt::from(spread + 1), &p + BigInt::from(2 * spread + 2)), // bid > price
                 5 => (&p - BigInt::from(2 * spread + 2), &p - BigInt::from(spread + 1)), // ask < price
                 6 => (-(&p).abs() - BigInt::from(1), &p + BigInt::from(spread)),       // negative bid
+                // flat book away from the benchmark price: bid == ask != price (above / below)
+                12 => (&p + BigInt::from(spread + 1), &p + BigInt::from(spread + 1)),
+                13 => (&p - BigInt::from(spread + 1), &p - BigInt::from(spread + 1)),
                 // wide books: bid and ask in other decimal magnitude buckets than the benchmark price
                 // (ask = price * 10^k + r, bid = price / 10^j), capped to the signed 192-bit range
                 8..=11 => {
@@ -209,6 +212,7 @@ fn check_report(c: &ReportCase, rec: &mut Rec) -> Result<(), String> {
     // the ask needs a larger divisor than the benchmark price would (wide book)
     let kmin_price = (0u32..=40).find(|k| floor_div(&price.abs(), &pow10(*k)) <= b(u128::MAX)).unwrap_or(40);
     rec.class_if(well_ordered && matches!(c.version, 3 | 11) && kmin > kmin_price, "ask_needs_larger_divisor_than_price");
+    rec.class_if(ebid == eask && ebid != price && !price.is_negative() && !ebid.is_negative(), "flat_book_away_from_price");
     match conv {
         Ok(p) => {
             rec.class("converted");
@@ -365,10 +369,11 @@ fn check_frame(c: &FrameCase, rec: &mut Rec) -> Result<(), String> {
 }
 
 pub fn run(ctx: &mut Ctx) {
-    ctx.rule("structured: cases = report schema version {2,3,7,8,11, unsupported 4}, price/bid/ask as signed 192-bit values (negative, > 2^128, equal, ordered, misordered, and wide books whose ask / bid lie in other decimal magnitude buckets than the benchmark price), observation and last-update timestamps around the 1 s rule, market status codes, optional truncation, hand-encoded as 32-byte ABI words; oracle = decode never panics and returns the encoded values, conversion succeeds iff all three are non-negative, bid <= price <= ask and the last update is not >= 1 s after the observation, outputs equal floor(x/10^k) for one common k (at most one above the minimum for ask to fit u128), decimals == 18-k, order and timestamp preserved | framing: cases = payloads with 3 context words, offset word, 0..2 gap words, length word, blob, tail, with tweaked / huge / high-byte offsets and lengths, truncation and byte flips, raw and snappy-compressed; oracle = no panic, and on success the blob equals the slice described by the full 256-bit ABI words; non-trivial = converted report / accepted frame");
+    ctx.rule("structured: cases = report schema version {2,3,7,8,11, unsupported 4}, price/bid/ask as signed 192-bit values (negative, > 2^128, equal, ordered, misordered, flat books with bid == ask != price, and wide books whose ask / bid lie in other decimal magnitude buckets than the benchmark price), observation and last-update timestamps around the 1 s rule, market status codes, optional truncation, hand-encoded as 32-byte ABI words; oracle = decode never panics and returns the encoded values, conversion succeeds iff all three are non-negative, bid <= price <= ask and the last update is not >= 1 s after the observation, outputs equal floor(x/10^k) for one common k (at most one above the minimum for ask to fit u128), decimals == 18-k, order and timestamp preserved | framing: cases = payloads with 3 context words, offset word, 0..2 gap words, length word, blob, tail, with tweaked / huge / high-byte offsets and lengths, truncation and byte flips, raw and snappy-compressed; oracle = no panic, and on success the blob equals the slice described by the full 256-bit ABI words; non-trivial = converted report / accepted frame");
     let n = ctx.cases(100_000, 5_000_000);
     ctx.search("reports", n, report_case, check_report);
     ctx.floor("reports:ask_needs_larger_divisor_than_price", 100);
+    ctx.floor("reports:flat_book_away_from_price", 500);
     ctx.search("frames", n, frame_case, check_frame);
     ctx.floor("reports:converted", 10_000);
     ctx.floor("reports:conversion_rejected", 5_000);
